@@ -38,3 +38,131 @@ Lemma refuted_probe :
   accepts (run g_probe c_default (fun _ _ => None) false 100 in_probe) = true /\
   run g_probe c_default (fun _ _ => None) true 100 in_probe = SyntaxErr 1.
 Proof. vm_compute. repeat split. Qed.
+
+(* ================================================================ state algebra *)
+Lemma set_pos_same s : set_pos (pos s) s = s.
+Proof. destruct s; reflexivity. Qed.
+Lemma set_pos_set_pos p q s : set_pos p (set_pos q s) = set_pos p s.
+Proof. destruct s; reflexivity. Qed.
+Lemma pos_set_pos p s : pos (set_pos p s) = p.
+Proof. reflexivity. Qed.
+
+Lemma lookup_upd_same k v m : lookup k (upd k v m) = Some v.
+Proof.
+  induction m as [|[k' v'] m IH]; cbn [upd lookup].
+  - now rewrite Nat.eqb_refl.
+  - destruct (Nat.eqb k k') eqn:E; cbn [lookup]; [now rewrite Nat.eqb_refl | now rewrite E].
+Qed.
+Lemma lookup_upd_other k k2 v m : k2 <> k -> lookup k2 (upd k v m) = lookup k2 m.
+Proof.
+  intro Hne. induction m as [|[k' v'] m IH]; cbn [upd lookup].
+  - destruct (Nat.eqb k2 k) eqn:E; [apply Nat.eqb_eq in E; contradiction | reflexivity].
+  - destruct (Nat.eqb k k') eqn:E; cbn [lookup].
+    + apply Nat.eqb_eq in E; subst k'.
+      destruct (Nat.eqb k2 k) eqn:E2; [apply Nat.eqb_eq in E2; contradiction | reflexivity].
+    + destruct (Nat.eqb k2 k'); [reflexivity | exact IH].
+Qed.
+Lemma upd_idem k v m : lookup k m = Some v -> upd k v m = m.
+Proof.
+  induction m as [|[k' v'] m IH]; cbn [upd lookup]; [discriminate|].
+  destruct (Nat.eqb k k') eqn:E; intro H.
+  - apply Nat.eqb_eq in E. congruence.
+  - now rewrite IH.
+Qed.
+
+Definition nm_le (a b : option nat) : Prop :=
+  match a, b with
+  | None, _ => True
+  | Some x, Some y => x <= y
+  | Some _, None => False
+  end.
+Lemma nm_le_refl a : nm_le a a.
+Proof. destruct a; cbn; auto. Qed.
+Lemma nm_le_trans a b c : nm_le a b -> nm_le b c -> nm_le a c.
+Proof. destruct a, b, c; cbn; try tauto; lia. Qed.
+
+Definition cpos_le (c c' : list (nat * nat)) : Prop :=
+  forall k v, lookup k c = Some v -> lookup k c' = Some v.
+Definition cpos_id (c : list (nat * nat)) : Prop :=
+  forall k v, lookup k c = Some v -> v = k.
+
+Lemma cpos_id_upd k c : cpos_id c -> cpos_id (upd k k c).
+Proof.
+  intros H k2 v. destruct (Nat.eq_dec k2 k) as [->|Hne].
+  - rewrite lookup_upd_same. congruence.
+  - rewrite lookup_upd_other by assumption. apply H.
+Qed.
+Lemma cpos_le_upd k c : cpos_id c -> cpos_le c (upd k k c).
+Proof.
+  intros H k2 v Hl. destruct (Nat.eq_dec k2 k) as [->|Hne].
+  - rewrite lookup_upd_same. now rewrite (H _ _ Hl).
+  - now rewrite lookup_upd_other.
+Qed.
+
+(* s' has the same context and cache as s, and its nm / comment_positions extend those of s
+   (the position is unconstrained) *)
+Record dom (s s' : st) : Prop := mkDom {
+  d_ws : ws s' = ws s;
+  d_rws : real_ws s' = real_ws s;
+  d_skip : skipws s' = skipws s;
+  d_eol : eolterm s' = eolterm s;
+  d_cmt : in_cmt s' = in_cmt s;
+  d_cache : cache s' = cache s;
+  d_nm : nm_le (nm s) (nm s');
+  d_cpos : cpos_le (cpos s) (cpos s') }.
+
+Lemma dom_refl s : dom s s.
+Proof. constructor; auto using nm_le_refl. intros k v H; exact H. Qed.
+Lemma dom_trans a b c : dom a b -> dom b c -> dom a c.
+Proof.
+  intros [] []; constructor; try congruence.
+  - eapply nm_le_trans; eassumption.
+  - intros k v H. auto.
+Qed.
+Lemma dom_set_pos_r p s s' : dom s s' -> dom s (set_pos p s').
+Proof. intros []; constructor; assumption. Qed.
+Lemma dom_set_pos_l p s s' : dom s s' -> dom (set_pos p s) s'.
+Proof. intros []; constructor; assumption. Qed.
+Lemma dom_set_pos_l_inv p s s' : dom (set_pos p s) s' -> dom s s'.
+Proof. intros []; constructor; assumption. Qed.
+Lemma dom_reg_fail p s : dom s (reg_fail p s).
+Proof.
+  unfold reg_fail. destruct (nm s) as [q|] eqn:E.
+  - destruct (in_cmt s); [apply dom_refl|].
+    destruct (Nat.ltb q p) eqn:L; [|apply dom_refl].
+    constructor; try reflexivity.
+    + cbn. rewrite E. cbn. apply Nat.ltb_lt in L. lia.
+    + intros k v H; exact H.
+  - constructor; try reflexivity.
+    + rewrite E. exact I.
+    + intros k v H; exact H.
+Qed.
+Lemma cpos_reg_fail p s : cpos (reg_fail p s) = cpos s.
+Proof. unfold reg_fail. destruct (nm s); [destruct (in_cmt s); [|destruct (Nat.ltb _ _)]|]; reflexivity. Qed.
+Lemma pos_reg_fail p s : pos (reg_fail p s) = pos s.
+Proof. unfold reg_fail. destruct (nm s); [destruct (in_cmt s); [|destruct (Nat.ltb _ _)]|]; reflexivity. Qed.
+
+Lemma in_cmt_reg_fail p s : in_cmt (reg_fail p s) = in_cmt s.
+Proof. unfold reg_fail. destruct (nm s); [destruct (in_cmt s) eqn:E; [|destruct (Nat.ltb _ _)]|]; auto. Qed.
+Lemma nm_reg_fail p s : exists q, nm (reg_fail p s) = Some q /\ (in_cmt s = false -> p <= q).
+Proof.
+  unfold reg_fail. destruct (nm s) as [q|] eqn:E.
+  - destruct (in_cmt s) eqn:C; [exists q; split; [assumption | discriminate]|].
+    destruct (Nat.ltb q p) eqn:L.
+    + exists p. split; [reflexivity | lia].
+    + exists q. split; [assumption | apply Nat.ltb_ge in L; lia].
+  - exists p. split; [reflexivity | lia].
+Qed.
+
+(* registering a failure at p in a state whose nm already dominates that of the first run *)
+Lemma reg_fail_saturated p s s' :
+  dom (reg_fail p s) s' -> reg_fail p s' = s'.
+Proof.
+  intros D. pose proof (d_nm _ _ D) as Hn. pose proof (d_cmt _ _ D) as Hc.
+  rewrite in_cmt_reg_fail in Hc.
+  destruct (nm_reg_fail p s) as [q [Hq Hpq]]. rewrite Hq in Hn.
+  unfold reg_fail. destruct (nm s') as [q'|] eqn:E'; [|contradiction]. cbn in Hn.
+  destruct (in_cmt s') eqn:C'; [reflexivity|].
+  destruct (Nat.ltb q' p) eqn:L'; [|reflexivity].
+  apply Nat.ltb_lt in L'. try rewrite C' in Hc. symmetry in Hc. specialize (Hpq Hc). lia.
+Qed.
